@@ -2,7 +2,6 @@ package http2utils
 
 import (
 	"bytes"
-	"crypto/rand"
 	"fmt"
 	"log"
 	"path/filepath"
@@ -102,7 +101,12 @@ func AddPadding(b []byte) []byte {
 
 	b[0] = uint8(n)
 
-	_, _ = rand.Read(b[nn+1 : nn+n])
+	// Padding octets have to be zero (RFC 7540 6.1). They used to be random,
+	// apart from the last one, which kept whatever the buffer held before.
+	pad := b[nn+1:]
+	for i := range pad {
+		pad[i] = 0
+	}
 
 	return b
 }
